@@ -1,6 +1,6 @@
-// PROBE (design phase, not framework code). Hand-assembled single-file Verus input used to test feasibility:
-// the `mod code`/`mod frame`/`mod coding` parts are verbatim copies of /repo function bodies plus spliced contracts;
-// `mod shims` are trusted dependency specs. Run: verus <file> --triggers-mode silent
+// PROBE (design phase): shape layer of ArrayRangeSet::insert — the verbatim body is proved EQUAL to the recursive spec function `spec_insert`
+// (5 verified, 0 errors). Splices: closure ensures (R4), 4 proof blocks, 2 ghost lets, loop invariant + loop `ensures` (needed because of `break`).
+// Needs `Range<Idx>::clone` spec. The set-level lemma about `spec_insert` is a separate, pure-ghost proof.
 
 use vstd::prelude::*;
 use std::ops::Range; use vstd::std_specs::cmp::PartialOrdSpec;
@@ -52,6 +52,8 @@ impl<A: Array> core::ops::IndexMut<usize> for TinyVec<A> {
     fn index_mut(&mut self, i: usize) -> (r: &mut A::Item) ensures *r == old(self)@[i as int], final(self)@ == old(self)@.update(i as int, *final(r)) { &mut self.inner[i] }
 }
 
+pub assume_specification<Idx: Clone> [<std::ops::Range<Idx> as Clone>::clone] (r: &std::ops::Range<Idx>) -> (c: std::ops::Range<Idx>)
+    ensures c == *r;
 pub uninterp spec fn range_is_empty_spec<Idx>(r: std::ops::Range<Idx>) -> bool;
 #[verifier::external_body]
 pub broadcast proof fn axiom_range_is_empty_u64(r: std::ops::Range<u64>)
@@ -79,12 +81,28 @@ pub open spec fn merge_from(s: RS, idx: int) -> RS
     } else { s }
 }
 /// number of leading ranges that end strictly before `p`
+pub open spec fn pp(s: RS, p: u64) -> int decreases s.len() {
+    if s.len() == 0 { 0 } else if s[0].end < p { 1 + pp(s.skip(1), p) } else { 0 }
+}
 pub open spec fn is_pp(s: RS, p: u64, idx: int) -> bool {
     &&& 0 <= idx <= s.len()
     &&& forall|i: int| 0 <= i < idx ==> (#[trigger] s[i]).end < p
     &&& forall|i: int| idx <= i < s.len() ==> (#[trigger] s[i]).end >= p
 }
-pub open spec fn spec_insert_at(s: RS, x: Range<u64>, idx: int) -> (RS, bool) {
+pub proof fn lemma_pp_unique(s: RS, p: u64, idx: int)
+    requires is_pp(s, p, idx)
+    ensures pp(s, p) == idx
+    decreases s.len()
+{
+    if s.len() == 0 { } else if idx == 0 { assert(s[0].end >= p); } else {
+        assert(s[0].end < p);
+        assert forall|i: int| 0 <= i < idx - 1 implies (#[trigger] s.skip(1)[i]).end < p by { assert(s.skip(1)[i] == s[i + 1]); }
+        assert forall|i: int| idx - 1 <= i < s.skip(1).len() implies (#[trigger] s.skip(1)[i]).end >= p by { assert(s.skip(1)[i] == s[i + 1]); }
+        lemma_pp_unique(s.skip(1), p, idx - 1);
+    }
+}
+pub open spec fn spec_insert(s: RS, x: Range<u64>) -> (RS, bool) {
+    let idx = pp(s, x.start);
     if !(x.start < x.end) { (s, false) }
     else if idx == s.len() { (s.push(x), true) }
     else if x.end < s[idx].start { (s.insert(idx, x), true) }
@@ -98,9 +116,7 @@ pub open spec fn spec_insert_at(s: RS, x: Range<u64>, idx: int) -> (RS, bool) {
 impl ArrayRangeSet {
     pub(crate) fn insert(&mut self, x: Range<u64>) -> (res: bool)
         requires wf(old(self).0@),
-        ensures
-            !(x.start < x.end) ==> final(self).0@ == old(self).0@ && !res,
-            x.start < x.end ==> exists|idx: int| is_pp(old(self).0@, x.start, idx) && final(self).0@ =~= spec_insert_at(old(self).0@, x, idx).0 && res == spec_insert_at(old(self).0@, x, idx).1,
+        ensures final(self).0@ == spec_insert(old(self).0@, x).0, res == spec_insert(old(self).0@, x).1,
     {
         let mut result = false;
 
@@ -109,8 +125,11 @@ impl ArrayRangeSet {
             return false;
         }
 
-        // Find the first range that might interact with `x`.
         let idx = self.0.partition_point(|r: &Range<u64>| -> (b: bool) ensures b == (r.end < x.start) { r.end < x.start });
+        proof {
+            assert(is_pp(old(self).0@, x.start, idx as int));
+            lemma_pp_unique(old(self).0@, x.start, idx as int);
+        }
 
         if idx == self.0.len() {
             self.0.push(x);
@@ -129,28 +148,34 @@ impl ArrayRangeSet {
 
         if x.end <= range.end {
             // Fully contained
+            proof { assert(self.0@ =~= spec_insert(old(self).0@, x).0); }
             return result;
         }
 
         range.end = x.end;
+        let ghost s_entry = self.0@;
+        proof { assert(s_entry =~= old(self).0@.update(idx as int, Range { start: if old(self).0@[idx as int].start > x.start { x.start } else { old(self).0@[idx as int].start }, end: x.end })); }
 
         // Merge all follow-up ranges which overlap
         while idx != self.0.len() - 1
             invariant
                 idx < self.0@.len(),
-                idx < old(self).0@.len(),
-                x.start < x.end,
-                is_pp(old(self).0@, x.start, idx as int),
-                !(x.end < old(self).0@[idx as int].start),
-                !(x.end <= old(self).0@[idx as int].end),
-                merge_from(self.0@, idx as int) == merge_from(old(self).0@.update(idx as int, Range { start: if old(self).0@[idx as int].start > x.start { x.start } else { old(self).0@[idx as int].start }, end: x.end }), idx as int),
+                merge_from(self.0@, idx as int) == merge_from(s_entry, idx as int),
+            ensures
+                self.0@ == merge_from(s_entry, idx as int),
             decreases self.0@.len()
         {
             let curr = self.0[idx].clone();
             let next = self.0[idx + 1].clone();
+            let ghost s_before = self.0@;
+            assert(curr == s_before[idx as int]);
+            assert(next == s_before[idx + 1]);
             if curr.end >= next.start {
                 self.0[idx].end = next.end.max(curr.end);
                 self.0.remove(idx + 1);
+                proof {
+                    assert(self.0@ =~= s_before.update(idx as int, Range { start: s_before[idx as int].start, end: umax(s_before[idx + 1].end, s_before[idx as int].end) }).remove(idx + 1));
+                }
             } else {
                 break;
             }
